@@ -298,6 +298,55 @@ static void global_attr_cases(void) {
   sq_detail("%ld global-attribute cases; ", cases);
 }
 
+/* first use: whatever the first library call of a process (and the first call after myth_fini) is, it initialises the library */
+static void first_use_cases(void) {
+  static const char * const NM[] = { "myth_create", "myth_yield", "myth_yield_ex(steal_first)", "myth_usleep(1)", "myth_sleep(0)", "myth_nanosleep(1 ns)", "myth_get_num_workers", "myth_get_worker_num",
+				       "myth_self", "myth_key_create", "myth_mutex_init+lock", "myth_barrier_init(1)+wait", "myth_cond_signal / broadcast without waiter",
+				       "myth_join_counter_init(1)+dec+wait", "myth_felock_wait_and_lock(0)+mark_and_signal(1)", "myth_uncond_init" };
+  long cases = 0;
+  for (int fc = 0; fc < 16; fc++) for (int after_fini = 0; after_fini < 2; after_fini++) {
+    int pfd[2]; if (pipe(pfd)) continue; fflush(NULL);
+    pid_t pid = fork();
+    if (pid == 0) {
+      close(pfd[0]); char m[200] = ""; int bad = 0;
+      setenv("MYTH_NUM_WORKERS", "2", 1); setenv("MYTH_BIND_WORKERS", "0", 1);
+      if (after_fini) { myth_init(); myth_thread_t t = myth_create(nop, (void *)9); myth_join(t, 0); myth_fini(); }
+      switch (fc) {
+      case 0: { myth_thread_t t = myth_create(nop, (void *)9); void * r = 0; myth_join(t, &r); if (r != (void *)9) bad = 1; break; }
+      case 1: myth_yield(); break;
+      case 2: myth_yield_ex(myth_yield_option_steal_first); break;
+      case 3: if (myth_usleep(1) != 0) bad = 1; break;
+      case 4: if (myth_sleep(0) != 0) bad = 1; break;
+      case 5: { struct timespec rq = { 0, 1 }; if (myth_nanosleep(&rq, 0) != 0) bad = 1; break; }
+      case 6: if (myth_get_num_workers() != 2) bad = 1; break;
+      case 7: if (myth_get_worker_num() != 0) bad = 1; break;
+      case 8: if (myth_self() == 0) bad = 1; break;
+      case 9: { myth_key_t k; if (myth_key_create(&k, 0) != 0) bad = 1; break; }
+      case 10: { static myth_mutex_t mm; myth_mutex_init(&mm, 0); if (myth_mutex_lock(&mm) != 0 || myth_mutex_unlock(&mm) != 0) bad = 1; break; }
+      case 11: { static myth_barrier_t bb; myth_barrier_init(&bb, 0, 1); if (myth_barrier_wait(&bb) != MYTH_BARRIER_SERIAL_THREAD) bad = 1; break; }
+      case 12: { static myth_cond_t cc; myth_cond_init(&cc, 0); if (myth_cond_signal(&cc) != 0 || myth_cond_broadcast(&cc) != 0) bad = 1; break; }
+      case 13: { static myth_join_counter_t jj; myth_join_counter_init(&jj, 0, 1); myth_join_counter_dec(&jj); myth_join_counter_wait(&jj); break; }
+      case 14: { static myth_felock_t ff; myth_felock_init(&ff, 0); if (myth_felock_wait_and_lock(&ff, 0) != 0 || myth_felock_mark_and_signal(&ff, 1) != 0 || myth_felock_status(&ff) != 1) bad = 1; break; }
+      default: { static myth_uncond_t uu; myth_uncond_init(&uu); break; }   /* signalling an uncondition variable nobody waits on is outside its protocol: initialisation only */
+      }
+      if (bad) snprintf(m, sizeof m, "the call itself returned a wrong value");
+      if (!bad) { int q = myth_get_num_workers(), w = myth_get_worker_num(); if (q != 2 || w < 0 || w >= q) { bad = 1; snprintf(m, sizeof m, "after it the library runs with %d workers (worker_num %d), MYTH_NUM_WORKERS=2", q, w); } }
+      if (!bad) { myth_thread_t t = myth_create(nop, (void *)9); void * r = 0; myth_join(t, &r); if (r != (void *)9) { bad = 1; snprintf(m, sizeof m, "create+join afterwards delivered %p", r); } }
+      if (!bad) { myth_fini(); int c = count_os_threads(); if (c != 1) { bad = 1; snprintf(m, sizeof m, "%d OS threads remain after myth_fini", c); } }
+      if (write(pfd[1], m, strlen(m) + 1) < 0) {}
+      _exit(bad);
+    }
+    close(pfd[1]);
+    int st; int hung = sq_wait_child(pid, 60, &st); char msg[300] = ""; ssize_t k = read(pfd[0], msg, sizeof msg - 1); if (k < 0) k = 0; msg[k] = 0; close(pfd[0]);
+    cases++; SQ.states++; SQ.evaluations++; SQ.transitions += 5;
+    if (hung || !WIFEXITED(st) || WEXITSTATUS(st)) {
+      char key[160]; snprintf(key, sizeof key, "first use: %s as the first library call %s", NM[fc], after_fini ? "after init + fini" : "of the process");
+      sq_found(key, "", "%s", hung ? "the process hangs" : !WIFEXITED(st) ? "the process crashes (the call does not initialise the library)" : msg);
+    }
+  }
+  sq_detail("%ld first-use cases; ", cases);
+}
+
 /* the CPU table is rebuilt at every initialisation: building it again must give the table of the first time (a differential oracle: the
    state reached from the initial state vs. the state reached from an initialised one), for as many initialisations as one likes */
 static void cpu_table_histories(int cycles) {
@@ -338,7 +387,7 @@ int main(int argc, char ** argv) {
       if (rc || nw != 2) { char key[80]; snprintf(key, sizeof key, "MYTH_CPU_LIST=\"%s\" with MYTH_BIND_WORKERS=1", lists[i][0] == '\n' ? "\\n" : lists[i]); if (lists[i][1] == '\n') snprintf(key, sizeof key, "MYTH_CPU_LIST=\"0,\\n\" with MYTH_BIND_WORKERS=1"); sq_found(key, "", "%s", rc ? "process crashed or hung at initialisation" : "wrong worker count"); } }
     sq_detail("%ld environment-value processes; ", env_cases);
   }
-  if (!strcmp(part, "all") || !strcmp(part, "hist")) { global_attr_cases(); hist_all(tier ? 5 : 4); }
+  if (!strcmp(part, "all") || !strcmp(part, "hist")) { global_attr_cases(); first_use_cases(); hist_all(tier ? 5 : 4); }
   SQ.distinct = SQ.states;
   return sq_end(stats);
 }
